@@ -683,9 +683,6 @@ func checkText(text []byte, doc *gen.Tree, optSet, fault int, v *verdict) error 
 		}
 		if mem[1].typedErr() != nil && mem[1].genericErr() == nil {
 			v.class("typed target rejected by all three")
-			if os.Getenv("C18_DEBUG") == "typed" && strict {
-				return fmt.Errorf("DEBUG typed rejected (%s, strict=%v): %v", optsName(set), strict, mem[1].typedErr())
-			}
 		}
 
 		// one conversion fault: the error names the file
@@ -784,13 +781,6 @@ func runCase(c Case, r *runlog.R) error {
 		return fmt.Errorf("%v\ndocument: %s", err, clip(text))
 	}
 	if v.discard != "" {
-		if os.Getenv("C18_DEBUG") == "discardfail" {
-			return fmt.Errorf("DEBUG discard: %s\ndocument: %q", v.discard, text)
-		}
-		if os.Getenv("C18_DEBUG") == "discard" { // measuring aid: show the reasons in the class histogram
-			r.Class("discard: " + v.discard)
-			return nil
-		}
 		r.Discard()
 		return nil
 	}
@@ -1140,27 +1130,48 @@ func FuzzFrontEnds(f *testing.F) {
 	for _, s := range fuzzSeeds {
 		f.Add([]byte(s))
 	}
+	for _, s := range []string{"a: b", "- a", "yes", " # c", "'q' \"q\"", "line\nbreak\ttab", "|\n  x", "&a *a !t %d @h `t`", "{a: [1, 2]}", "\\u0041\\n", "é日本😀\u2028"} {
+		f.Add([]byte(s)) // not JSON: used as string content, see below
+	}
 	f.Fuzz(func(t *testing.T, data []byte) {
-		if len(data) > 2048 || !ejson.Valid(data) {
+		if len(data) > 2048 {
 			return
 		}
-		dec := ejson.NewDecoder(bytes.NewReader(data))
-		dec.UseNumber()
-		var v interface{}
-		if err := dec.Decode(&v); err != nil {
-			return
-		}
-		doc, ok := treeOfJSON(v)
-		if !ok || !doc.IsCont() || doc.Depth() > 40 {
-			return
+		var doc *gen.Tree
+		text := data
+		if ejson.Valid(data) {
+			dec := ejson.NewDecoder(bytes.NewReader(data))
+			dec.UseNumber()
+			var v interface{}
+			if err := dec.Decode(&v); err != nil {
+				return
+			}
+			var ok bool
+			doc, ok = treeOfJSON(v)
+			if !ok || !doc.IsCont() || doc.Depth() > 40 {
+				return
+			}
+		} else {
+			// bytes that are no JSON document are used as the content of a key and
+			// of two strings of a document written by encoding/json, so that the
+			// coverage-guided search also explores the string scanners
+			if !utf8.Valid(data) {
+				return
+			}
+			s := string(data)
+			doc = gen.Obj().Put("k", gen.Str(s)).Put("l", gen.List(gen.Str(s), gen.Obj().Put(s+"x", gen.Bool(true))))
+			var err error
+			if text, err = render(doc, len(data)&3); err != nil {
+				return
+			}
 		}
 		// keys that address the same setting (duplicates after normalisation) or negative indices: C05/C20
 		if !keysIndependent(doc) {
 			return
 		}
 		var vd verdict
-		if err := checkText(data, doc, 0, len(data), &vd); err != nil {
-			t.Fatalf("%v\ndocument: %s", err, clip(data))
+		if err := checkText(text, doc, 0, len(data), &vd); err != nil {
+			t.Fatalf("%v\ndocument: %s", err, clip(text))
 		}
 	})
 }
